@@ -117,6 +117,11 @@ pub fn check(cx: &Cx, rep: &mut Report) {
             if deliveries.iter().all(|d| d.0 < end_s) && periodic {
                 nontrivial = true;
             }
+            if !cx.mt {
+                if let Some(f) = ix.ev.iter().find(|e| e.stamp > end_s && matches!(&e.k, K::TimerFire { id } if *id == t.id)) {
+                    rep.fail(P, "R4", format!("fired_after_end;kind={}", t.kind), format!("{} timer {} produced its message at #{} after its actor's task ended at #{end_s}", t.kind, t.id, f.stamp), vec![end_s, f.stamp]);
+                }
+            }
         }
         // R2: exact schedule on an otherwise idle, single-incarnation, fault-free actor
         let idle = af.incs.len() == 1
